@@ -2232,3 +2232,380 @@ func ruleBR4() Rule {
 			}
 		}}
 }
+
+// ---------------------------------------------------------------------------
+// RC7: the construct stack grows only where a compound command begins.
+
+// firstOfStart computes FIRST(start symbol) of a grammar: the terminals a
+// complete sentence can begin with.
+func firstOfStart(g *Grammar) map[string]bool {
+	isTerm := func(s string) bool {
+		if strings.HasPrefix(s, "'") {
+			return true
+		}
+		_, ok := g.Tokens[s]
+		return ok
+	}
+	nullable := map[string]bool{}
+	first := map[string]map[string]bool{}
+	for changed := true; changed; {
+		changed = false
+		for _, p := range g.Prods {
+			if first[p.LHS] == nil {
+				first[p.LHS] = map[string]bool{}
+			}
+			allNull := true
+			for _, s := range p.RHS {
+				if isTerm(s) {
+					if !first[p.LHS][s] {
+						first[p.LHS][s] = true
+						changed = true
+					}
+					allNull = false
+					break
+				}
+				for t := range first[s] {
+					if !first[p.LHS][t] {
+						first[p.LHS][t] = true
+						changed = true
+					}
+				}
+				if !nullable[s] {
+					allNull = false
+					break
+				}
+			}
+			if allNull && !nullable[p.LHS] {
+				nullable[p.LHS] = true
+				changed = true
+			}
+		}
+	}
+	start := g.Start
+	if start == "" && len(g.Prods) > 0 {
+		start = g.Prods[0].LHS
+	}
+	return first[start]
+}
+
+func ruleRC7() Rule {
+	return Rule{ID: "RC7", Kind: "must", Floor: 5,
+		Doc: "the lexer's construct stack (the closers still expected: fi, done, esac, }, ) …) grows only where a compound command begins: on every path to an `l.stack = append(l.stack, …)` the function has emitted a terminal that can begin a command according to the grammar (FIRST of its start symbol: if, while, until, for, case, {, ( …). A clause keyword inside a construct (elif, then, else, do) replaces the top and never pushes - otherwise one closer pops one of two entries, the stack is never empty again and the next top-level newline no longer ends the command",
+		Run: func(c *Ctx, rr *core.RuleResult) {
+			gi := c.grammar("parser")
+			if gi.Err != nil {
+				rr.Unkp(c.P, "parser|grammar", 0, gi.Err.Error())
+				return
+			}
+			openers := firstOfStart(gi.G)
+			stackF := c.fieldVar("parser", "lexer", "stack")
+			emit := c.mustFn(rr, "parser.(*lexer).emit")
+			if stackF == nil {
+				rr.Unkp(c.P, "anchor:lexer.stack", 0, "field lexer.stack not found")
+				return
+			}
+			if emit == nil {
+				return
+			}
+			isStack := func(info *types.Info, e ast.Expr) bool {
+				sel, ok := ast.Unparen(e).(*ast.SelectorExpr)
+				return ok && info.Uses[sel.Sel] == stackF
+			}
+			termOf := func(info *types.Info, e ast.Expr) string {
+				switch x := ast.Unparen(e).(type) {
+				case *ast.Ident:
+					if _, ok := info.Uses[x].(*types.Const); ok {
+						return x.Name
+					}
+				case *ast.BasicLit:
+					if x.Kind == token.CHAR {
+						return x.Value
+					}
+				}
+				return ""
+			}
+			// grows reports the pushes of a function: assignments stack = append(stack, …)
+			type push struct {
+				f  *core.Func
+				at ast.Node
+			}
+			growsIn := func(f *core.Func) []push {
+				var out []push
+				info := f.Info()
+				f.OwnNodes(func(n ast.Node) bool {
+					as, ok := n.(*ast.AssignStmt)
+					if !ok || len(as.Lhs) != 1 || len(as.Rhs) != 1 || !isStack(info, as.Lhs[0]) {
+						return true
+					}
+					call, ok := ast.Unparen(as.Rhs[0]).(*ast.CallExpr)
+					if ok && isBuiltinCall(info, call, "append") && len(call.Args) >= 2 && isStack(info, call.Args[0]) {
+						out = append(out, push{f, as})
+					}
+					return true
+				})
+				return out
+			}
+			openerEmit := func(f *core.Func) func(ast.Node) bool {
+				info := f.Info()
+				return func(n ast.Node) bool {
+					call, ok := n.(*ast.CallExpr)
+					if !ok || len(call.Args) != 1 {
+						return false
+					}
+					fo := core.StaticCallee(info, call)
+					if fo == nil || c.P.FuncOf(fo) != emit {
+						return false
+					}
+					if t := termOf(info, call.Args[0]); t != "" {
+						return openers[t]
+					}
+					if _, isID := ast.Unparen(call.Args[0]).(*ast.Ident); isID {
+						if cc := enclosingCase(c.P, call); cc != nil && len(cc.List) > 0 {
+							for _, e := range cc.List {
+								if t := termOf(info, e); t == "" || !openers[t] {
+									return false
+								}
+							}
+							return true
+						}
+					}
+					return false
+				}
+			}
+			var check func(p push, depth int, via string)
+			check = func(p push, depth int, via string) {
+				f := p.f
+				seen := core.NewFlow(f).MustSeen(false, openerEmit(f), nil)
+				key := f.Name + "|push" + via
+				if seen[p.at] {
+					rr.OK(f, key, p.at.Pos(), "opener", "a terminal of FIRST(command) was emitted on every path to the push")
+					return
+				}
+				// a helper that only pushes, or a state the construct's first state
+				// hands over to (`return l.lexForBody`): the obligation moves to
+				// every place that calls the function or takes it as a value
+				if depth < 4 && f.Decl != nil && f.Obj != nil && !f.Obj.Exported() {
+					var refs []push
+					for _, g := range c.funcsOfPkg("parser", false) {
+						ginfo := g.Info()
+						g.OwnNodes(func(n ast.Node) bool {
+							if sel, ok := n.(*ast.SelectorExpr); ok && ginfo.Uses[sel.Sel] == types.Object(f.Obj) {
+								refs = append(refs, push{g, sel})
+							} else if id, ok := n.(*ast.Ident); ok && ginfo.Uses[id] == types.Object(f.Obj) {
+								if _, isSel := c.P.Parent(id).(*ast.SelectorExpr); !isSel {
+									refs = append(refs, push{g, id})
+								}
+							}
+							return true
+						})
+					}
+					if len(refs) > 0 {
+						for _, r := range refs {
+							if r.f.Root() == f {
+								continue // the state hands over to itself
+							}
+							check(r, depth+1, via+" through "+f.Short)
+						}
+						return
+					}
+				}
+				rr.Bad(f, key, p.at.Pos(), "the construct stack grows here although no terminal that can begin a command was emitted on the way: a clause keyword (elif, then, else, do) must replace the expected closer on top, not push another - one `fi`/`done` then pops one of two entries, the stack never empties and the following newline no longer ends the command")
+			}
+			for _, f := range c.funcsOfPkg("parser", false) {
+				for _, p := range growsIn(f) {
+					check(p, 0, "")
+				}
+			}
+		}}
+}
+
+// ---------------------------------------------------------------------------
+// RD1: one call of read() takes one character from the input and returns it.
+
+func ruleRD1() Rule {
+	return Rule{ID: "RD1", Kind: "must", Floor: 2,
+		Doc: "the parser lexer's read() is the only place characters enter the lexer: (a) on no path does one call take more than one character from a source (ReadRune on the input or on an alias value, directly or through a helper) - a character taken and not returned is lost to every scanner, quoted or not; (b) the rune it returns is the one ReadRune delivered, never a constant or a recomputed value",
+		Run: func(c *Ctx, rr *core.RuleResult) {
+			f := c.mustFn(rr, "parser.(*lexer).read")
+			if f == nil {
+				return
+			}
+			isReadRune := func(info *types.Info, call *ast.CallExpr) bool {
+				fo := core.StaticCallee(info, call)
+				return fo != nil && fo.Name() == "ReadRune" && fo.Type().(*types.Signature).Recv() != nil
+			}
+			// reads(g): the largest number of characters one call of g can take
+			memo := map[*core.Func]int{}
+			var reads func(g *core.Func, depth int) int
+			reads = func(g *core.Func, depth int) int {
+				if v, ok := memo[g]; ok {
+					return v
+				}
+				memo[g] = 2 // recursion: unbounded
+				if depth > 4 || g.Body == nil {
+					return memo[g]
+				}
+				info := g.Info()
+				_, n := core.NewFlow(g).MaxCount(2, func(x ast.Node) int {
+					call, ok := x.(*ast.CallExpr)
+					if !ok {
+						return 0
+					}
+					if isReadRune(info, call) {
+						return 1
+					}
+					if fo := core.StaticCallee(info, call); fo != nil {
+						if h := c.P.FuncOf(fo); h != nil && h.Pkg == g.Pkg && !h.Generated && c.reachesReadRune(h) {
+							return reads(h, depth+1) // a recursive call finds memo == 2: unbounded
+						}
+					}
+					return 0
+				})
+				memo[g] = n
+				return n
+			}
+			n := reads(f, 0)
+			key := f.Name + "|characters taken per call"
+			switch {
+			case n == 1:
+				rr.OK(f, key, f.Pos(), "path-count", "at most one ReadRune on every path through read() and its helpers")
+			case n == 0:
+				rr.Unk(f, key, f.Pos(), "no ReadRune call found in read(): the anchor does not read the input any more")
+			default:
+				rr.Bad(f, key, f.Pos(), "one call of read() can take two characters from the input (a second ReadRune on some path): the first one is delivered to nobody, or a pair of characters is folded into one - also inside quotes, where every character stands for itself")
+			}
+			// (b) returned rune is ReadRune's
+			var badRet []*ast.ReturnStmt
+			var badIn []*core.Func
+			nret := 0
+			okMemo := map[*core.Func]bool{}
+			var delivers func(g *core.Func, depth int) bool
+			// isSource: a call whose first result is a rune taken from a reader
+			isSource := func(g *core.Func, call *ast.CallExpr, depth int) bool {
+				info := g.Info()
+				if isReadRune(info, call) {
+					return true
+				}
+				if fo := core.StaticCallee(info, call); fo != nil {
+					if h := c.P.FuncOf(fo); h != nil && h.Pkg == g.Pkg && !h.Generated && h.Body != nil && c.reachesReadRune(h) {
+						return delivers(h, depth+1)
+					}
+				}
+				return false
+			}
+			delivers = func(g *core.Func, depth int) bool {
+				if v, ok := okMemo[g]; ok {
+					return v
+				}
+				okMemo[g] = true // a recursive call hands on what the outer call checks
+				if depth > 4 {
+					okMemo[g] = false
+					return false
+				}
+				info := g.Info()
+				fromReader := map[types.Object]bool{}
+				other := map[types.Object]bool{}
+				g.OwnNodes(func(x ast.Node) bool {
+					as, ok := x.(*ast.AssignStmt)
+					if !ok {
+						return true
+					}
+					for i, lhs := range as.Lhs {
+						id, ok := lhs.(*ast.Ident)
+						if !ok || id.Name == "_" {
+							continue
+						}
+						obj := info.ObjectOf(id)
+						if obj == nil {
+							continue
+						}
+						if b, ok := obj.Type().Underlying().(*types.Basic); !ok || b.Kind() != types.Int32 {
+							continue
+						}
+						if len(as.Rhs) == 1 && len(as.Lhs) > 1 && i == 0 {
+							if call, ok := ast.Unparen(as.Rhs[0]).(*ast.CallExpr); ok && isSource(g, call, depth) {
+								fromReader[obj] = true
+								continue
+							}
+						}
+						other[obj] = true
+					}
+					return true
+				})
+				good := true
+				g.OwnNodes(func(x ast.Node) bool {
+					ret, ok := x.(*ast.ReturnStmt)
+					if !ok || len(ret.Results) == 0 {
+						return true
+					}
+					if g == f {
+						nret++
+					}
+					if len(ret.Results) == 1 {
+						if call, ok := ast.Unparen(ret.Results[0]).(*ast.CallExpr); ok && isSource(g, call, depth) {
+							return true
+						}
+					} else if id, isID := ast.Unparen(ret.Results[0]).(*ast.Ident); isID {
+						if obj := info.ObjectOf(id); obj != nil && fromReader[obj] && !other[obj] {
+							return true
+						}
+					}
+					good = false
+					badRet = append(badRet, ret)
+					badIn = append(badIn, g)
+					return true
+				})
+				okMemo[g] = good
+				return good
+			}
+			if delivers(f, 0) && nret > 0 {
+				rr.OK(f, f.Name+"|returned rune", f.Pos(), "def-use", fmt.Sprintf("%d return(s) hand on ReadRune's rune unchanged", nret))
+			} else if nret == 0 {
+				rr.Unk(f, f.Name+"|returned rune", f.Pos(), "read() has no return with a value: idiom not recognised")
+			} else {
+				for i, ret := range badRet {
+					rr.Bad(badIn[i], f.Name+"|returned rune", ret.Pos(), "read() returns `"+exprStr(ret.Results[0])+"` here, which is not (only) the rune ReadRune delivered: a character is replaced on its way to the scanners")
+				}
+			}
+		}}
+}
+
+// reachesReadRune reports whether g can call a ReadRune method.
+func (c *Ctx) reachesReadRune(g *core.Func) bool {
+	key := "reachesReadRune:" + g.Name
+	if v, ok := c.cache[key]; ok {
+		return v.(bool)
+	}
+	c.cache[key] = false
+	found := false
+	var scan func(h *core.Func)
+	seen := map[*core.Func]bool{}
+	scan = func(h *core.Func) {
+		if seen[h] || found || h.Body == nil {
+			return
+		}
+		seen[h] = true
+		info := h.Info()
+		h.OwnNodes(func(x ast.Node) bool {
+			call, ok := x.(*ast.CallExpr)
+			if !ok {
+				return true
+			}
+			fo := core.StaticCallee(info, call)
+			if fo == nil {
+				return true
+			}
+			if fo.Name() == "ReadRune" && fo.Type().(*types.Signature).Recv() != nil {
+				found = true
+				return false
+			}
+			if k := c.P.FuncOf(fo); k != nil && k.Pkg == g.Pkg && !k.Generated {
+				scan(k)
+			}
+			return true
+		})
+	}
+	scan(g)
+	c.cache[key] = found
+	return found
+}
